@@ -17,7 +17,7 @@
    stated where they are used (proof/C18_proof.v, props/C18.v).
 
    Exceptions are represented by the name of the Python exception class. *)
-From Coq Require Import ZArith String List Bool.
+From Coq Require Import ZArith Ascii String List Bool.
 From Verif Require Import Imp.
 Import ListNotations.
 Open Scope Z_scope.
@@ -367,6 +367,15 @@ Definition rfc_parse_client_first (m : bytes) : option (bytes * bytes * bytes) :
    harness with hashlib / hmac / base64 for the inputs that occur in a case.  A miss yields
    a poison value that no real digest / encoding can equal. *)
 Module Oracle.
+  (* byte strings enter as hex literals *)
+  Definition hexval (c : ascii) : Z :=
+    let n := Z.of_N (N_of_ascii c) in if n <? 58 then n - 48 else n - 87.
+  Fixpoint hx (s : string) : bytes :=
+    match s with
+    | String a (String b r) => (16 * hexval a + hexval b) :: hx r
+    | _ => []
+    end.
+
   Definition poison : bytes := [-1].
   Fixpoint assoc {V} (k : bytes) (t : list (bytes * V)) : option V :=
     match t with
